@@ -13,9 +13,29 @@ def _valid(spec):
     try:
         files, gen = protos.lower(spec)
         protos.build_pool(files)
-        return bool(gen)
+        if not gen:
+            return False
     except Exception:  # noqa
         return False
+    # string-valued references that no descriptor pool checks: an operation_info type must still EXIST in the candidate
+    # (a dangling name "fails to build" too, with the very same KeyError text as a genuine resolution defect)
+    names = set()
+
+    def walk(prefix, msgs):
+        for m in msgs:
+            names.add(prefix + "." + m["name"])
+            walk(prefix + "." + m["name"], m.get("messages", ()))
+    for fs in spec["files"]:
+        walk(fs["package"], fs.get("messages", ()))
+    for fs in spec["files"]:
+        for sv in fs.get("services", ()):
+            for m in sv["methods"]:
+                for t in (m.get("lro") or {}).values():
+                    if not isinstance(t, str) or not t or t.startswith("google."):
+                        continue
+                    if t not in names and fs["package"] + "." + t not in names:
+                        return False
+    return True
 
 
 _MSG = {}
@@ -35,11 +55,18 @@ def _fails(prop_id, spec, sc, rule):
         return False, None
     for v in pay["violations"]:
         if v["rule"] == rule:
+            import re
             if rule == "world_unbuildable":
                 # keep the same failure (same exception text), not just any unbuildable world
-                import re
                 key = re.sub(r"\d+", "N", str(v.get("msg")))[:80]
                 if _MSG.setdefault("w", key) != key:
+                    continue
+            else:
+                # a rule that reports an exception keeps the exception CLASS: "call failed with AttributeError" must not
+                # shrink into "call failed because the method no longer exists"
+                mm = re.search(r"\braised? (\w+)", str(v.get("msg")))
+                key = mm.group(1) if mm else None
+                if _MSG.setdefault("exc:" + rule, key) != key:
                     continue
             return True, pay
     return False, pay
